@@ -12,19 +12,19 @@ theorem tags_tie :
     [VERSION, ATOM_EXT, SMALL_ATOM_EXT, ATOM_UTF8_EXT, SMALL_ATOM_UTF8_EXT, ATOM_CACHE_REF, SMALL_INTEGER_EXT,
      INTEGER_EXT, SMALL_BIG_EXT, LARGE_BIG_EXT, FLOAT_EXT, NEW_FLOAT_EXT, SMALL_TUPLE_EXT, LARGE_TUPLE_EXT, NIL_EXT,
      STRING_EXT, LIST_EXT, MAP_EXT, BINARY_EXT, BIT_BINARY_EXT, REFERENCE_EXT, PORT_EXT, PID_EXT, NEW_REFERENCE_EXT,
-     NEW_PID_EXT, NEWER_REFERENCE_EXT, V4_PORT_EXT, LOCAL_EXT, NEW_FUN_EXT, EXPORT_EXT, DIST_HEADER, DIST_FRAG_HEADER,
+     NEW_PID_EXT, NEWER_REFERENCE_EXT, V4_PORT_EXT, NEW_PORT_EXT, LOCAL_EXT, NEW_FUN_EXT, EXPORT_EXT, DIST_HEADER, DIST_FRAG_HEADER,
      COMPRESSED_EXT]
     = [131, 100, 115, 118, 119, 82, 97, 98, 110, 111, 99, 70, 104, 105, 106, 107, 108, 116, 109, 77, 101, 102, 103,
-       114, 88, 90, 120, 121, 112, 113, 68, 69, 80] := by decide
+       114, 88, 90, 120, 89, 121, 112, 113, 68, 69, 80] := by decide
 
 theorem limits_tie :
-    [Gen.MAX_ATOM_SIZE, Gen.MAX_LIST_SIZE, Gen.MAX_TUPLE_SIZE, Gen.MAX_MAP_SIZE, Gen.MAX_BINARY_SIZE]
-    = [Edp.MAX_ATOM_SIZE, Edp.MAX_LIST_SIZE, Edp.MAX_TUPLE_SIZE, Edp.MAX_MAP_SIZE, Edp.MAX_BINARY_SIZE] := by decide
+    [Gen.MAX_ATOM_SIZE, Gen.MAX_LIST_SIZE, Gen.MAX_TUPLE_SIZE, Gen.MAX_MAP_SIZE, Gen.MAX_BINARY_SIZE, Gen.MAX_NESTING_DEPTH]
+    = [Edp.MAX_ATOM_SIZE, Edp.MAX_LIST_SIZE, Edp.MAX_TUPLE_SIZE, Edp.MAX_MAP_SIZE, Edp.MAX_BINARY_SIZE, Edp.MAX_NESTING_DEPTH] := by decide
 
 /-- the model's owned decoder dispatches on exactly the tags the Rust owned decoder does (68 = DIST_HEADER is
 listed there only to be rejected) -/
 def modelOwnedTags : List Nat :=
-  [97, 98, 99, 70, 100, 118, 119, 115, 104, 105, 106, 107, 108, 109, 77, 110, 111, 116, 88, 90, 120, 113, 112, 80,
+  [97, 98, 99, 70, 100, 118, 119, 115, 104, 105, 106, 107, 108, 109, 77, 110, 111, 116, 88, 90, 120, 89, 113, 112, 80,
    101, 102, 103, 114, 121, 82]
 
 theorem owned_dispatch_tie : ∀ t, t ∈ ownedTags ↔ (t ∈ modelOwnedTags ∨ t = 68) := by
